@@ -7,6 +7,9 @@ use std::convert::TryFrom;
 pub fn dispatch(kind: &str, case: &Value) -> Result<Option<String>, String> {
     match kind {
         "panic_decode" => panic_decode(case),
+        "fp_op" => fp_op(case),
+        "fp_eval" => fp_eval(case),
+        "fp_const" => fp_const(case),
         _ => Err(format!("unknown case kind {:?}", kind)),
     }
 }
@@ -34,4 +37,154 @@ fn panic_decode(case: &Value) -> Result<Option<String>, String> {
         _ => return Err(format!("unknown fn {}", f)),
     };
     Ok(r.err().map(|m| format!("{} panicked on {} bytes: {}", f, b.len(), m)))
+}
+
+// ---------------------------------------------------------------------------
+// C07: field operations on raw (Montgomery) limbs
+// ---------------------------------------------------------------------------
+use ff::{Field, PrimeField};
+use star_sharks::{Fp, FpRepr};
+
+fn limbs_of(v: &Value) -> Result<[u64; 3], String> {
+    let a = v.as_array().ok_or("limbs")?;
+    let mut o = [0u64; 3];
+    for i in 0..3 {
+        o[i] = a[i].as_str().ok_or("limb str")?.parse::<u64>().map_err(|e| e.to_string())?;
+    }
+    Ok(o)
+}
+fn fp_raw(l: [u64; 3]) -> Fp {
+    // Fp is a tuple struct around [u64; 3] (checked by the repository's element_length test)
+    unsafe { core::mem::transmute::<[u64; 3], Fp>(l) }
+}
+fn raw_of(f: Fp) -> [u64; 3] {
+    let v: Vec<u64> = f.into();
+    [v[0], v[1], v[2]]
+}
+
+/// evaluates one operation of the real field type; result as a JSON value
+pub fn fp_apply(op: &str, case: &Value) -> Result<Value, String> {
+    let get = |k: &str| -> Result<Fp, String> { Ok(fp_raw(limbs_of(&case[k])?)) };
+    let out_l = |f: Fp| -> Value {
+        let l = raw_of(f);
+        serde_json::json!([l[0].to_string(), l[1].to_string(), l[2].to_string()])
+    };
+    Ok(match op {
+        "add" => out_l(get("a")? + get("b")?),
+        "sub" => out_l(get("a")? - get("b")?),
+        "mul" => out_l(get("a")? * get("b")?),
+        "neg" => out_l(-get("a")?),
+        "double" => out_l(get("a")?.double()),
+        "square" => out_l(get("a")?.square()),
+        "invert" => {
+            let r = get("a")?.invert();
+            if bool::from(r.is_some()) { out_l(r.unwrap()) } else { Value::Null }
+        }
+        "sqrt" => {
+            let r = get("a")?.sqrt();
+            if bool::from(r.is_some()) { out_l(r.unwrap()) } else { Value::Null }
+        }
+        "pow" => {
+            let e = case["e"].as_str().ok_or("e")?.parse::<u64>().map_err(|e| e.to_string())?;
+            out_l(get("a")?.pow([e]))
+        }
+        "from_u64" => {
+            let v = case["v"].as_str().ok_or("v")?.parse::<u64>().map_err(|e| e.to_string())?;
+            out_l(Fp::from(v))
+        }
+        "to_repr" => {
+            let r = get("a")?.to_repr();
+            Value::String(r.as_ref().iter().map(|b| format!("{:02x}", b)).collect())
+        }
+        "from_repr" => {
+            let b = get_hex(case, "bytes");
+            let mut a = [0u8; 24];
+            a.copy_from_slice(&b);
+            let r = Fp::from_repr(FpRepr(a));
+            if bool::from(r.is_some()) { out_l(r.unwrap()) } else { Value::Null }
+        }
+        "eq" => Value::Bool(get("a")? == get("b")?),
+        "cmp" => Value::String(format!("{:?}", get("a")?.cmp(&get("b")?))),
+        "is_odd" => Value::Bool(bool::from(get("a")?.is_odd())),
+        "const" => {
+            let n = case["name"].as_str().ok_or("name")?;
+            match n {
+                "ZERO" => out_l(Fp::ZERO),
+                "ONE" => out_l(Fp::ONE),
+                "TWO_INV" => out_l(Fp::TWO_INV),
+                "MULTIPLICATIVE_GENERATOR" => out_l(Fp::MULTIPLICATIVE_GENERATOR),
+                "ROOT_OF_UNITY" => out_l(Fp::ROOT_OF_UNITY),
+                "ROOT_OF_UNITY_INV" => out_l(Fp::ROOT_OF_UNITY_INV),
+                "DELTA" => out_l(Fp::DELTA),
+                "NUM_BITS" => Value::String(Fp::NUM_BITS.to_string()),
+                "CAPACITY" => Value::String(Fp::CAPACITY.to_string()),
+                "S" => Value::String(Fp::S.to_string()),
+                "MODULUS" => Value::String(Fp::MODULUS.to_string()),
+                _ => return Err(format!("const {}", n)),
+            }
+        }
+        _ => return Err(format!("unknown op {}", op)),
+    })
+}
+
+/// one operation with the value expected by the checker's independent big-integer model
+fn fp_op(case: &Value) -> Result<Option<String>, String> {
+    let op = case["op"].as_str().ok_or("op")?.to_string();
+    let c2 = case.clone();
+    let got = catch(move || fp_apply(&op, &c2));
+    match got {
+        Err(p) => Ok(Some(format!("{} panicked: {}", case["op"], p))),
+        Ok(Err(e)) => Err(e),
+        Ok(Ok(v)) => {
+            if v == case["expect"] {
+                Ok(None)
+            } else {
+                Ok(Some(format!("{} on {}: real code returns {} but big-integer model mod 2^128+12451 gives {}",
+                    case["op"], case, v, case["expect"])))
+            }
+        }
+    }
+}
+
+/// batch evaluation (translator validation): prints one JSON array of results
+fn fp_eval(case: &Value) -> Result<Option<String>, String> {
+    let mut out = Vec::new();
+    for c in case["cases"].as_array().ok_or("cases")? {
+        let op = c["op"].as_str().ok_or("op")?.to_string();
+        let c2 = c.clone();
+        let r = catch(move || fp_apply(&op, &c2));
+        out.push(match r {
+            Ok(Ok(v)) => v,
+            Ok(Err(e)) => return Err(e),
+            Err(p) => Value::String(format!("PANIC:{}", p)),
+        });
+    }
+    println!("FP_EVAL {}", Value::Array(out));
+    Ok(None)
+}
+
+/// published constants have the meaning the field interface assigns to them
+/// (evaluated with the real field operations, which C07 checks separately)
+fn fp_const(_case: &Value) -> Result<Option<String>, String> {
+    let r = catch(|| {
+        let mut bad: Vec<String> = Vec::new();
+        let one = Fp::ONE;
+        let g = Fp::MULTIPLICATIVE_GENERATOR;
+        // (p-1)/2 = 2^127 + 6225, little-endian u64 limbs
+        let q: [u64; 3] = [6225, 1u64 << 63, 0];
+        if Fp::TWO_INV.double() != one { bad.push("2*TWO_INV != 1".into()); }
+        if g.pow(q) != -one { bad.push("MULTIPLICATIVE_GENERATOR^((p-1)/2) != -1: not a generator / is a quadratic residue".into()); }
+        if Fp::ROOT_OF_UNITY != g.pow(q) || Fp::ROOT_OF_UNITY != -one { bad.push("ROOT_OF_UNITY is not the primitive 2^S-th root g^t = -1".into()); }
+        if Fp::ROOT_OF_UNITY * Fp::ROOT_OF_UNITY_INV != one { bad.push("ROOT_OF_UNITY*ROOT_OF_UNITY_INV != 1".into()); }
+        if Fp::DELTA != g.square() { bad.push("DELTA != g^(2^S)".into()); }
+        if Fp::NUM_BITS != 129 || Fp::CAPACITY != 128 || Fp::S != 1 { bad.push("NUM_BITS/CAPACITY/S".into()); }
+        if Fp::MODULUS != "0x1000000000000000000000000000030a3" { bad.push("MODULUS string".into()); }
+        if bool::from(Fp::ZERO.invert().is_some()) || !Fp::ZERO.is_zero_vartime() { bad.push("ZERO".into()); }
+        bad
+    });
+    match r {
+        Err(p) => Ok(Some(format!("constant evaluation panicked: {}", p))),
+        Ok(bad) if bad.is_empty() => Ok(None),
+        Ok(bad) => Ok(Some(format!("field constants: {}", bad.join("; ")))),
+    }
 }
